@@ -88,6 +88,13 @@ def cases_for(rng, tier):
         texts.append("const K2 = 1; const K = %s;\npc = 0; Stat = 1;\n" % e)
         texts.append("register xY { a : 8 = %s; }\nx_a = Y_a; pc = 0; Stat = 1;\n" % e)
         texts.append("mem_readbit = %s; mem_addr = 0; mem_writebit = 0; mem_input = 0; pc = 0; Stat = 1;\n" % e)
+    # enables of partially connected memory ports are evaluated before any width rule has seen them
+    import props.c09 as c09
+    for e in c09.CONST_ENABLES:
+        texts.append("const EN0 = 0, EN2 = 2; pc = 0; Stat = 1;\nmem_addr = 0;\nmem_writebit = %s;\n" % e)
+        texts.append("const EN0 = 0, EN2 = 2; pc = 0; Stat = 1;\nmem_input = 0;\nmem_writebit = %s;\n" % e)
+        texts.append("const EN0 = 0, EN2 = 2; pc = 0; Stat = 1;\nmem_readbit = %s;\n" % e)
+        texts.append("const EN0 = 0, EN2 = 2; pc = 0; Stat = 1;\nmem_readbit = %s; mem_writebit = %s; mem_input = 1;\n" % (e, e))
     return texts
 
 
